@@ -191,11 +191,16 @@ class MHLHistory:
         return self, relative_path
 
     def is_recorded_as_directory(self, file_path: str) -> bool:
-        history, relative_path = self.find_history_for_path(self.get_relative_file_path(file_path))
-        for hash_list in reversed(history.hash_lists):
-            media_hash = hash_list.find_media_hash_for_path(relative_path)
-            if media_hash is not None:
-                return media_hash.is_directory
+        # the record may be in the history nearest to the path or in one further out (a nested history that was
+        # created later does not know what the outer history recorded before)
+        for history in MHLHistory.walk_child_histories(self):
+            relative_path = history.get_relative_file_path(file_path)
+            if relative_path is None or relative_path == os.pardir or relative_path.startswith(os.pardir + os.sep):
+                continue
+            for hash_list in reversed(history.hash_lists):
+                media_hash = hash_list.find_media_hash_for_path(relative_path)
+                if media_hash is not None:
+                    return media_hash.is_directory
         return False
 
     def set_of_file_paths(self) -> Set[str]:
